@@ -862,12 +862,84 @@ def edge_conditions(body):
     return out
 
 
-def guarded_by(body, site_block, pred, conds=None):
+def _synthetic_cond(body, edge, op, truth):
+    """Cond for 'operand op evaluates to `truth`' (used for boolean locals assigned from compound conditions)"""
+    kind, payload, neg = resolve_bool(body, op)
+    if neg:
+        truth = not truth
+    if kind == "cmp":
+        return Cond(body, edge, "cmp", op=payload["op"], a=payload["a"], b=payload["b"], truth=truth)
+    if kind == "call":
+        return Cond(body, edge, "call", call=payload, callee=callee_key(payload), truth=truth)
+    if kind == "const":
+        v = payload.get("v")
+        return Cond(body, edge, "const", value=(v == "true"), truth=truth)
+    if kind == "place":
+        c = Cond(body, edge, "bool", payload=payload, truth=truth, vals=[])
+        c._synthetic_operand = op
+        return c
+    return None
+
+
+def _derived_satisfies(body, c, pred, conds, base_removed):
+    """A branch on a boolean LOCAL that was assigned in several arms (`let ok = a && b; if ok {..}`, `let bad = !x || !y`):
+    taking the edge with local == T satisfies pred iff every definition that can produce T either is itself a condition
+    satisfying pred (with that truth) or sits in a block that is guarded by (directly matching) pred edges."""
+    if c.kind != "bool" or c.truth is None:
+        return False
+    pl = getattr(c, "payload", None)
+    if not isinstance(pl, dict) or "l" not in pl or pl.get("pj"):
+        return False
+    defs = [d for d in body.defs().get(pl["l"], []) if d[0] in ("assign", "call")]
+    if len(defs) < 2:
+        return False
+    considered = 0
+    reach = None
+    for d in defs:
+        sc = None
+        blk = d[1]
+        if d[0] == "call":
+            sc = Cond(body, c.edge, "call", call=d[2], callee=callee_key(d[2]), truth=c.truth)
+        else:
+            rv = d[3]["rv"]
+            if rv["k"] == "use":
+                op = rv["a"]
+                if "c" in op and "p" not in op:
+                    if (op.get("v") == "true") != c.truth:
+                        continue      # this definition cannot lead to the edge
+                else:
+                    sc = _synthetic_cond(body, c.edge, op, c.truth)
+            elif rv["k"] == "un" and rv["op"] == "Not":
+                sc = _synthetic_cond(body, c.edge, rv["a"], not c.truth)
+            elif rv["k"] == "bin" and rv["op"] in ("Lt", "Le", "Gt", "Ge", "Eq", "Ne"):
+                sc = Cond(body, c.edge, "cmp", op=rv["op"], a=rv["a"], b=rv["b"], truth=c.truth)
+        considered += 1
+        ok = False
+        if sc is not None and sc.kind != "const":
+            try:
+                ok = bool(pred(sc))
+            except Exception:
+                ok = False
+        if not ok:
+            if reach is None:
+                reach, _p = body.reach_from(0, removed_edges=base_removed)
+            ok = blk not in reach
+        if not ok:
+            return False
+    return considered > 0
+
+
+def guarded_by(body, site_block, pred, conds=None, _depth=0):
     """True iff every path from entry to site_block passes through a switch edge whose Cond
     satisfies pred.  Returns (bool, witness path avoiding all such edges or None, matching edges)."""
     if conds is None:
         conds = edge_conditions(body)
     removed = set(eid for eid, c in conds.items() if pred(c))
+    if removed:
+        base = frozenset(removed)
+        for eid, c in conds.items():
+            if eid not in removed and c.kind == "bool" and _derived_satisfies(body, c, pred, conds, base):
+                removed.add(eid)
     # a branch all of whose outgoing edges satisfy the predicate does not guard anything
     by_src = defaultdict(list)
     for e in body.edges():
